@@ -38,6 +38,8 @@ Definition hinfo (m : N) : minfo :=
   | 19 => mk_info "D" "p_pin" true false true
   (* &mut self with an unmock_with entry: the polonius template emits NO unmock arm (finding F1) *)
   | 20 => mk_info "D" "m_mut" false false true
+  | 23 => mk_info "D" "r_rc" false false true     (* required, Rc<Self> receiver *)
+  | 24 => mk_info "D" "p_rc2" true false true     (* provided, Rc<Self>: the body calls r_rc, consuming the pointer *)
   | _ => mk_info "?" "?" false false true
   end.
 
@@ -173,17 +175,20 @@ Definition kill (w : world) (i : nat) (it : inst) : world :=
 (* ---------- re-entrant user code (C15, C16): default bodies and real functions
    are programs that call back into the mock; their calls are evaluated on the
    shared state in program order.  Result: inl text of the returned Val / inr panic text ---------- *)
-Definition d_alias (m : N) : N := if m =? 21 then 17 else if m =? 22 then 18 else m.
+Definition d_alias (m : N) : N :=
+  if m =? 21 then 17 else if m =? 22 then 18 else if m =? 25 then 23 else if m =? 26 then 24 else m.
 
 Inductive recv := RRef | RMut | RVal | RRcSole | RRcKept | RPin.
 Definition recv_of (m : N) : recv :=
   match m with
-  | 15 | 20 => RMut | 16 => RVal | 17 | 18 => RRcSole | 21 | 22 => RRcKept | 19 => RPin | _ => RRef
+  | 15 | 20 => RMut | 16 => RVal | 17 | 18 | 23 | 24 => RRcSole | 21 | 22 | 25 | 26 => RRcKept | 19 => RPin | _ => RRef
   end.
 
 (* the required calls the common default body makes for argument a: a mod 4 calls, r0/r1 alternating *)
 Definition body_calls (a : N) : list (N * N) :=
   map (fun j => ((if Nat.even j then 10 else 11), (a + N.of_nat j) mod 8)) (seq 0 (N.to_nat (a mod 4))).
+(* p_rc2's own body: exactly one call, of the Rc-receiver required method, with the same argument *)
+Definition body_calls_of (m a : N) : list (N * N) := if m =? 24 then [(23, a)] else body_calls a.
 
 Fixpoint eval_act (fuel : nat) (cfg : config) (armed : N) (s1 : state) (m a b : N) (act : action)
   : state * N * (string + string) :=
@@ -222,7 +227,7 @@ Fixpoint eval_act (fuel : nat) (cfg : config) (armed : N) (s1 : state) (m a b : 
                   | inl t => loop cs' s3 ar3 (acc ++ [t])%list
                   | inr p => (s3, ar3, inr p)
                   end
-                end) (body_calls a) s1 armed []
+                end) (body_calls_of m a) s1 armed []
            end
     end
   end.
